@@ -318,6 +318,12 @@ func ScanMultiPolygon(data []byte) (orb.MultiPolygon, int, error) {
 
 // ScanCollection takes binary wkb and decodes it into a collection.
 func ScanCollection(data []byte) (orb.Collection, int, error) {
+	// check the header like the other Scan functions do, so a bad byte order
+	// is reported as ErrNotWKBHeader and not as the stream decoder's ErrNotWKB.
+	if _, _, err := byteOrderType(data); err != nil {
+		return nil, 0, err
+	}
+
 	m, srid, err := NewDecoder(bytes.NewReader(data)).Decode()
 	if err == io.EOF || err == io.ErrUnexpectedEOF {
 		return nil, 0, ErrNotWKB
